@@ -82,6 +82,27 @@ def last_n_selection(repo):
     return [p, src.item(r'^pub\(crate\) fn check_continuous_headers')]
 
 
+def td_gate(repo):
+    """The `// Check total difficulty.` statement of SendLastStateProofProcess::execute (the `if` that follows the comment, verbatim), wrapped as a method."""
+    import re
+    from extract import Source, Piece, match_brace, ExtractError
+    src = Source(repo, SLSP)
+    c = re.search(r'^[ \t]*// Check total difficulty\.\n(?:[ \t]*//[^\n]*\n)*', src.src, re.M)
+    if not c:
+        raise ExtractError('the "// Check total difficulty." statement was not found in %s' % SLSP)
+    m = re.compile(r'[ \t]*if [^\n{]*\{').match(src.src, c.end())
+    if not m:
+        raise ExtractError('the statement after "// Check total difficulty." is not an `if`')
+    j = src.src.index('{', m.start())
+    e = match_brace(src.src, j)
+    body = src.src[m.start():e + 1]
+    p = Piece(src, body, src.src.count('\n', 0, m.start()) + 1, 'SendLastStateProofProcess::execute / total difficulty check against the previously proved state')
+    p.prefix = ('impl SendLastStateProofProcess {\n    pub fn td_gate(&self, headers: &[HeaderView], reorg_count: usize, sampled_count: usize, last_n_count: usize, '
+                'peer_state: &PeerState, last_header: &VerifiableHeader, original_request: &ProveRequest) -> Status {\n')
+    p.suffix = '\n        Status::ok()\n    }\n}'
+    return [p]
+
+
 def shared(mod_name, ids, prefix, why):
     """Obligations of ANOTHER property module that also decide a clause of this property (same harness, same bounds): they are re-run under
     this property's id with the obligation id prefixed, so that a change which breaks this property through that code is reported by THIS check."""
